@@ -243,12 +243,8 @@ def _matrix(case, ctx, rng, MS):
     idx = pd.MultiIndex.from_product(levels, names=names)
     vals = rng.integers(0, 50, len(idx)).astype(float)
     ser = pd.Series(vals, index=idx, name="cycles")
-    if names[0] == "from":        # a from == to class has no range: keep it empty
-        f = idx.get_level_values("from").mid
-        t = idx.get_level_values("to").mid
-        ser[np.asarray(f == t)] = 0.0
-    else:
-        ser[np.asarray(idx.get_level_values("range").mid <= 0)] = 0.0
+    if names[0] == "from":
+        ctx.tag("matrix:diagonal_cells_occupied")      # from == to classes: range 0, must still be counted once
     ctx.nontrivial(ser.sum() > 0)
     M = case["M"]
     res = ser.meanstress_transform.fkm_goodman(pd.Series({"M": M, "M2": case["M2"]}), Rg)
